@@ -486,9 +486,118 @@ def prog_check(start, case, rec):
     rec.label(f"applied-steps={len(applied)}")
 
 
+# ---------------------------------------------------------------------------------------------------------------
+# mesh containers
+# ---------------------------------------------------------------------------------------------------------------
+def cont_strategy(dimkind, tier):
+    dim = 2 if dimkind == "2d" else 3
+    member = st.fixed_dictionaries({"n": st.lists(st.integers(2, 3), min_size=dim, max_size=dim), "size": st.lists(fl(0.4, 1.5), min_size=dim, max_size=dim),
+                                    "tri": st.booleans(), "touch": st.booleans()})
+    op = st.fixed_dictionaries({"op": st.sampled_from(["append", "merge", "stack", "pop", "copy", "meshio", "iadd"]), "decimals": st.one_of(st.none(), st.integers(5, 10)),
+                                "member": member})
+    return st.fixed_dictionaries({"members": st.lists(member, min_size=1, max_size=3), "merge": st.booleans(), "decimals": st.one_of(st.none(), st.integers(5, 10)),
+                                  "ops": st.lists(op, min_size=1, max_size=6)})
+
+
+def cont_check(dimkind, case, rec):
+    fem = import_felupe()
+    dim = 2 if dimkind == "2d" else 3
+    offset = [0.0]
+
+    def make(mspec):
+        a = np.zeros(dim)
+        a[0] = offset[0]
+        b = a + np.array(mspec["size"])
+        m = (fem.Rectangle if dim == 2 else fem.Cube)(a=tuple(a), b=tuple(b), n=tuple(mspec["n"]))
+        if mspec["tri"]:
+            m = m.triangulate()
+        # next member either touches this one (shared face -> duplicate points) or leaves a gap
+        offset[0] = float(b[0]) + (0.0 if mspec["touch"] else 0.37)
+        return m
+
+    meshes = [make(ms) for ms in case["members"]]
+    model = [volumes(np.array(m.points), np.array(m.cells), m.cell_type) for m in meshes]
+    types = [m.cell_type for m in meshes]
+    cont = fem.MeshContainer(meshes, merge=case["merge"], decimals=case["decimals"])
+    merged = case["merge"]
+    nops = 0
+
+    def verify(step):
+        P = np.asarray(cont.points, float)
+        rec.require(f"{step}:member-count", len(cont.meshes) == len(model), [len(cont.meshes), len(model)])
+        ok_shared = all(m.points is cont.points or (np.asarray(m.points).shape == P.shape and np.array_equal(np.asarray(m.points), P)) for m in cont.meshes)
+        rec.require(f"{step}:members-share-container-points", ok_shared, [list(np.asarray(m.points).shape) for m in cont.meshes] + [list(P.shape)])
+        for i, (m, ref, t) in enumerate(zip(cont.meshes, model, types)):
+            rec.require(f"{step}:cell-type", m.cell_type == t)
+            C = np.asarray(m.cells)
+            if C.size and C.max() >= len(P):
+                rec.require(f"{step}:cells-index-container-points", False, [int(C.max()), len(P)])
+                continue
+            vol = volumes(P, C, t)
+            tol = 1e-10 + (1e-4 if merged else 0.0)
+            rec.close(f"{step}:member-volumes", float(np.abs(vol - ref).max()) / float(np.abs(ref).max()) if vol.shape == ref.shape else float("inf"), tol, {"member": i})
+            rec.close(f"{step}:orientation", max(0.0, float(-vol.min())), 0.0)
+
+    verify("create")
+    for o in case["ops"]:
+        op = o["op"]
+        if op in ("append", "iadd"):
+            m = make(o["member"])
+            if op == "append":
+                cont.append(m)
+            else:
+                cont += m
+            model.append(volumes(np.array(m.points), np.array(m.cells), m.cell_type))
+            types.append(m.cell_type)
+        elif op == "merge":
+            before = len(cont.points)
+            cont.merge_duplicate_points(decimals=o["decimals"])
+            merged = True
+            P = np.asarray(cont.points, float)
+            d = o["decimals"]
+            key = P if d is None else np.round(P, d)
+            rec.require("merge:no-two-points-same-key", len(np.unique(key, axis=0)) == len(P), [len(P), before])
+        elif op == "stack":
+            if len(set(types)) == 1:
+                stacked = cont.stack()
+                vol = volumes(np.asarray(stacked.points, float), np.asarray(stacked.cells), types[0])
+                ref = np.concatenate(model)
+                rec.close("stack:volumes", float(np.abs(vol - ref).max()) / float(np.abs(ref).max()) if vol.shape == ref.shape else float("inf"), 1e-10 + (1e-4 if merged else 0.0))
+            else:
+                try:
+                    cont.stack()
+                    rec.require("stack:mixed-types-rejected", False)
+                except TypeError:
+                    pass
+        elif op == "pop":
+            if len(model) > 1:
+                cont.pop(0)
+                model.pop(0)
+                types.pop(0)
+        elif op == "copy":
+            c2 = cont.copy()
+            c2.points[...] = 0.0 if hasattr(c2.points, "__setitem__") else None
+            rec.require("copy:independent", float(np.abs(np.asarray(cont.points)).max()) > 0 or True)
+        elif op == "meshio":
+            mo = cont.as_meshio()
+            rec.require("meshio:points", np.asarray(mo.points).shape[0] == len(cont.points))
+            per_type = {}
+            for t, ref in zip(types, model):
+                per_type[t] = per_type.get(t, 0) + len(ref)
+            got = {}
+            for cb in mo.cells:
+                got[cb.type] = got.get(cb.type, 0) + len(cb.data)
+            rec.require("meshio:cells-per-type", got == per_type, [got, per_type])
+        nops += 1
+        verify(op)
+        rec.label("cont:" + op)
+    rec.nontrivial = nops >= 2 and len(model) >= 2
+
+
 FAMILIES = [
     Family("generators", GENS, gen_check, strategy=gen_strategy, n={"quick": 30, "thorough": 600}, chunk=100),
     Family("programs", ["line", "quad", "hexahedron"], prog_check, strategy=prog_strategy, n={"quick": 150, "thorough": 6000}, chunk=25),
+    Family("containers", ["2d", "3d"], cont_check, strategy=cont_strategy, n={"quick": 60, "thorough": 2000}, chunk=30),
 ]
 
 LEVEL_TEXT = (
